@@ -47,3 +47,17 @@ package ccb
 //@ func (*brokerReg).serve (r, ctx)
 //@   props C17
 //@   nocall [C17] reader_does_not_write: WriteControlAd
+
+// ---- standard mode (C20): the request names this attempt's id, and the accept loop is started for exactly that id ----
+// a freshly dialled broker stream: connected, no key yet (assumed for the shared-port and custom-carrier dialers alike)
+//@ func dialBrokerWith (ctx, brokerAddr, clientName, dialer) (result, err)
+//@   trusted
+//@   ensures plain_stream_on_success: err == nil ==> result != nil && fresh(result) && result.gcm == nil
+
+//@ func dialStandard (ctx, contact, connectID, opts) (result, err)
+//@   props C20
+//@   assert before call NewAd #1 request_carries_the_fresh_id: [C20] has(arg0, "ClaimId") && typeis(arg0["ClaimId"], "string") && unbox(arg0["ClaimId"], "string") == connectID
+//@   ensures never_both: [C20] err != nil ==> result == nil
+//@ func dialStandard$3
+//@   props C20
+//@   assert before call acceptReversed #1 accepts_for_this_request_only: [C20] arg2 == connectID && arg1 == ln
